@@ -20,6 +20,16 @@ Theorem C01_agreement_dtls12 :
 Proof. exact agreement12. Qed.
 Print Assumptions C01_agreement_dtls12.
 
+(* with hello verification the first, cookie-less ClientHello may have been rewritten on path (h1 arbitrary):
+   agreement holds on the hello that echoes the cookie, the one the Finished messages cover *)
+Theorem C01_agreement_dtls12_first_hello_rewritten :
+  forall ck sk ss cs h1 h2 r f o x p,
+    pion_hello ck h2 -> ems_valid (k_cfg sk) ->
+    server12_verified sk ss h1 h2 r = ROk f -> client12 ck sk cs h2 f = ROk o ->
+    mirrored (client_view h2 o x) (server_view h2 f x p).
+Proof. exact agreement12_first_hello_rewritten. Qed.
+Print Assumptions C01_agreement_dtls12_first_hello_rewritten.
+
 Theorem C01_agreement_dtls13 :
   forall ck sk ss cs h f o x p,
     server13 sk ss h = ROk f -> client13 ck sk cs h f = ROk o ->
